@@ -82,10 +82,10 @@ func (i IntegratedRunner) Run(cmd string, stream iostream.IOStream, task string,
 		return Result{}, fmt.Errorf("Command %q in task %q not valid shell syntax: %w", cmd, task, err)
 	}
 
-	// os.Environ() is added to env so that if nothing is passed, the
-	// process environment is used, but if we do pass env vars these
-	// are added as well as all the normal process env vars
-	env = append(env, os.Environ()...)
+	// The process environment comes first so that if nothing is passed it is
+	// used as is, and anything we do pass is added after it: for a name that
+	// appears twice the later entry wins, so the passed values take precedence
+	env = append(os.Environ(), env...)
 
 	var result Result
 	result.Cmd = cmd
